@@ -23,6 +23,7 @@ import (
 	"github.com/echovault/sugardb/internal/constants"
 	"github.com/echovault/sugardb/verifhook"
 	"io"
+	"log"
 	"net"
 	"strings"
 )
@@ -177,7 +178,17 @@ func (server *SugarDB) handleCommand(ctx context.Context, message []byte, conn *
 	}
 
 	if !server.isInCluster() || !synchronize {
-		res, err := handler(server.getHandlerFuncParams(ctx, cmd, conn))
+		res, err := func() (res []byte, err error) {
+			// A bug in a command handler must fail that one command, not take the whole process
+			// (and with it every other connection) down.
+			defer func() {
+				if r := recover(); r != nil {
+					log.Printf("panic while executing %s: %v\n", strings.ToUpper(cmd[0]), r)
+					res, err = nil, fmt.Errorf("internal error while executing %s: %v", strings.ToUpper(cmd[0]), r)
+				}
+			}()
+			return handler(server.getHandlerFuncParams(ctx, cmd, conn))
+		}()
 		if err != nil {
 			// The command is over: a failed write must not leave the mutation flag set, or state
 			// copies (SAVE, REWRITEAOF) would wait forever.
